@@ -8,10 +8,14 @@
  *                 decoder inputs, garbage-prefix x frame-sequence streams and
  *                 fault positions of scripted octet Source/Sink drivers.
  *   -DC12_ESTATE  E-STATE: explicit-state search to fixpoint over the decoder
- *                 context (flags, state); operation = "decode this octet
- *                 string until the source is exhausted".  Every reachable
- *                 context is a possible "after any corrupted prefix" state, so
- *                 the resynchronisation rule is checked from each of them.
+ *                 context (the whole object image); operation = "decode this
+ *                 octet string until the source is exhausted", fault-free or
+ *                 with one driver failure on the way and the context used on
+ *                 afterwards.  Every reachable context is a possible "after
+ *                 any corrupted prefix" state, so the resynchronisation rule
+ *                 is checked from each of them; each is also handed to the
+ *                 encoder and to rfc1055_context_init (re-initialisation
+ *                 history).
  *
  * The oracle is declarative (lexical), not a second decoder state machine: a
  * stream is cut at its delimiter octets, frames are recognised by an
@@ -42,6 +46,27 @@
  * Delivery = a decode call returning 1 (the value the repository's unit test
  * pins for end-of-frame) together with the octets that call put into the
  * sink.  Like the unit test, the driver discards the sink after every return.
+ *
+ * Environment histories (fault_sequences of the quantifier).  The drivers
+ * answer, per call position: one octet / everything offered (default), a short
+ * write (one of several octets), a zero-length return to a multi-octet write,
+ * -EAGAIN, -EINTR, or a hard error (-EIO, -EPIPE); and the *same* context and
+ * the same source are used on after the answer:
+ *
+ *   - a decode call that returns the -EAGAIN/-EINTR its source answered is an
+ *     interruption, not a result: it consumed no octet, so the stream is still
+ *     the same octet string and every sentence of the statement applies to it.
+ *     Such calls are folded into the call that follows (offsets and emitted
+ *     octets are accumulated, the caller keeps the sink over an interruption)
+ *     and the folded log is judged exactly like a fault-free one;
+ *   - after a hard source error, and after any sink error (the octet the sink
+ *     refused may be gone), the decoder is at most "behind a corrupted
+ *     prefix": only the resynchronisation sentences are applied, to the
+ *     delimiters / cut positions behind the point of failure;
+ *   - the encoder in front of a sink that writes short, interrupts or fails:
+ *     a hard error comes back unchanged; -EAGAIN/-EINTR come back unchanged
+ *     or are retried; and whenever encode reports success, what reached the
+ *     sink is a complete encoding (all encoding clauses + decode round trip).
  */
 #include "mc.h"
 
@@ -93,6 +118,8 @@ errname(int rc)
     if (rc == -ENODATA) return "-ENODATA";
     if (rc == -EIO) return "-EIO";
     if (rc == -EPIPE) return "-EPIPE";
+    if (rc == -EAGAIN) return "-EAGAIN";
+    if (rc == -EINTR) return "-EINTR";
     char *b = buf[k = (k + 1) & 3];
     snprintf(b, sizeof buf[0], "%d", rc);
     return b;
@@ -103,11 +130,20 @@ errname(int rc)
 
 enum kind { K_OCTET, K_CHUNK };
 
+/* answers of a scripted sink, per call position (default: take everything) */
+enum answer { A_ALL, A_ONE /* short write: one octet of several */,
+              A_ZERO /* zero-length return to a write of several octets */,
+              A_EAGAIN, A_EINTR, A_EIO, A_NANSWERS };
+#define ANS_BIT(a) (1u << (a))
+static const char *const ANS_NAME[A_NANSWERS] = { "all", "short", "zero", "-EAGAIN", "-EINTR", "-EIO" };
+
 struct src {
     const unsigned char *d;
     size_t len, pos;
     long calls, budget, err_at; /* err_at: index of the call that fails, -1 none */
-    int err_code, end_code;
+    long err_at2;               /* a second failing call, -1 none */
+    int err_code, err_code2, end_code;
+    int fcode;                  /* the code the last failing call answered */
     bool fired, overrun;
 };
 
@@ -116,7 +152,13 @@ struct snk {
     size_t cap, n;
     long calls, budget, err_at;
     int err_code;
+    int fcode;
     bool fired, overrun, overflow;
+    /* answer script (encoder families): answers for calls 0..nscript-1 */
+    const signed char *script;
+    int nscript;
+    size_t block;      /* > 0: a FIFO drained in blocks, a write ends at the next block boundary */
+    unsigned answered; /* ANS_BIT()s of the non-default answers really given */
 };
 
 static int
@@ -130,7 +172,11 @@ src_octet(void *drv, void *out)
     const long k = s->calls++;
     if (k == s->err_at) {
         s->fired = true;
-        return s->err_code;
+        return s->fcode = s->err_code;
+    }
+    if (k == s->err_at2) {
+        s->fired = true;
+        return s->fcode = s->err_code2;
     }
     if (s->pos >= s->len)
         return s->end_code;
@@ -146,6 +192,44 @@ src_chunk(void *drv, void *out, size_t n)
     return src_octet(drv, out); /* a short read of one octet is a legal answer */
 }
 
+/* the scripted answer to sink call k offering n octets: a negative code, or
+ * the number of octets to take */
+static long
+snk_answer(struct snk *s, long k, size_t n)
+{
+    const int a = k < s->nscript ? s->script[k] : A_ALL;
+    size_t take = n;
+    switch (a) {
+    case A_EAGAIN: s->answered |= ANS_BIT(a); return -EAGAIN;
+    case A_EINTR: s->answered |= ANS_BIT(a); return -EINTR;
+    case A_EIO: s->answered |= ANS_BIT(a); s->fired = true; return s->fcode = -EIO;
+    case A_ZERO:
+        /* only a write of several octets is answered with 0: what a zero
+         * answer to a single-octet call means to the caller of
+         * sink_put_octet is C17's business, not scripted here */
+        if (n > 1) {
+            s->answered |= ANS_BIT(a);
+            return 0;
+        }
+        break;
+    case A_ONE:
+        if (n > 1) {
+            s->answered |= ANS_BIT(a);
+            take = 1;
+        }
+        break;
+    default: break;
+    }
+    if (s->block) {
+        const size_t room = s->block - (s->n % s->block);
+        if (take > room) {
+            take = room;
+            s->answered |= ANS_BIT(A_ONE);
+        }
+    }
+    return (long)take;
+}
+
 static int
 snk_octet(void *drv, unsigned char c)
 {
@@ -157,7 +241,12 @@ snk_octet(void *drv, unsigned char c)
     const long k = s->calls++;
     if (k == s->err_at) {
         s->fired = true;
-        return s->err_code;
+        return s->fcode = s->err_code;
+    }
+    if (s->script) {
+        const long a = snk_answer(s, k, 1);
+        if (a < 0)
+            return (int)a;
     }
     if (s->n >= s->cap) {
         s->overflow = true;
@@ -170,7 +259,7 @@ snk_octet(void *drv, unsigned char c)
 static ssize_t
 snk_chunk(void *drv, const void *p, size_t n)
 {
-    /* accepts the whole chunk: partial acceptance is C17's subject */
+    /* accepts the whole chunk unless an answer script / block size says otherwise */
     struct snk *s = drv;
     if (s->calls >= s->budget) {
         s->overrun = true;
@@ -179,7 +268,13 @@ snk_chunk(void *drv, const void *p, size_t n)
     const long k = s->calls++;
     if (k == s->err_at) {
         s->fired = true;
-        return s->err_code;
+        return s->fcode = s->err_code;
+    }
+    if (s->script || s->block) {
+        const long a = snk_answer(s, k, n);
+        if (a <= 0)
+            return (ssize_t)a;
+        n = (size_t)a;
     }
     if (s->n + n > s->cap) {
         s->overflow = true;
@@ -198,6 +293,7 @@ src_setup(struct src *s, Source *h, enum kind k, const unsigned char *d, size_t 
     s->len = len;
     s->budget = 2 * (long)len + 16;
     s->err_at = -1;
+    s->err_at2 = -1;
     s->end_code = -ENODATA;
     if (k == K_OCTET)
         octet_source_init(h, src_octet, s);
@@ -334,10 +430,12 @@ struct dcall {
     size_t off0, off1; /* source offset before / after the call */
     size_t o0, olen;   /* what the call put into the sink */
     bool sfired, kfired;
+    int fcode;         /* the code the failing driver call answered during this call */
 };
 static struct {
-    struct dcall c[MAXSTREAM + 4];
+    struct dcall c[MAXSTREAM + 8];
     int n;
+    int folded;        /* interruptions folded away by fold_interruptions() */
     unsigned char out[MAXSTREAM + 16];
     bool hang, overflow;
     unsigned flags_after;
@@ -354,15 +452,18 @@ static const unsigned char *ctx_image_in;
 struct inject {
     long src_at, snk_at;
     int code;
+    long src_at2_plus1; /* a second failing source call: its index + 1, 0 = none */
+    int code2;
 };
-static const struct inject NO_INJECT = { -1, -1, 0 };
+static const struct inject NO_INJECT = { -1, -1, 0, 0, 0 };
 
 /* Calls rfc1055_decode until the source reports its end code.  The context
  * the decoder starts in: the image ctx_image_in of an explicit-state search
  * node when set; else rfc1055_context_init(flags0) when use_init_fn, the
  * header's static initialiser when state0 < 0, else rfc1055_context_init(flags0)
- * with only `state` overwritten by state0.  The block is zeroed first, so the
- * context image after the run is deterministic. */
+ * with only `state` overwritten by state0.  The block is zeroed first (filled
+ * with a5 in front of rfc1055_context_init), so the context image after the
+ * run is deterministic. */
 static void
 run_decoder(unsigned flags0, int state0, bool use_init_fn, enum kind kind,
             const unsigned char *stream, size_t len, struct inject inj)
@@ -373,6 +474,9 @@ run_decoder(unsigned flags0, int state0, bool use_init_fn, enum kind kind,
     if (ctx_image_in) {
         memcpy(ctx, ctx_image_in, sizeof *ctx);
     } else if (use_init_fn) {
+        /* rfc1055_context_init is what makes a context out of arbitrary
+         * memory (a stack variable, a block used for something else before) */
+        memset(ctx, 0xa5, sizeof *ctx);
         rfc1055_context_init(ctx, flags0);
     } else if (state0 < 0) {
         /* the header's static initialisers */
@@ -394,9 +498,12 @@ run_decoder(unsigned flags0, int state0, bool use_init_fn, enum kind kind,
     snk_setup(&k, &sink, kind, R.out, len + 8);
     s.err_at = inj.src_at;
     s.err_code = inj.code;
+    s.err_at2 = inj.src_at2_plus1 - 1;
+    s.err_code2 = inj.code2;
     k.err_at = inj.snk_at;
     k.err_code = inj.code;
     R.n = 0;
+    R.folded = 0;
     R.hang = R.overflow = false;
     for (;;) {
         struct dcall *c = &R.c[R.n];
@@ -409,9 +516,11 @@ run_decoder(unsigned flags0, int state0, bool use_init_fn, enum kind kind,
         c->olen = k.n - c->o0;
         c->sfired = s.fired;
         c->kfired = k.fired;
+        c->fcode = s.fired ? s.fcode : k.fired ? k.fcode : 0;
         R.n++;
-        mc_log("decode call %d: rc=%s source %zu->%zu state=%d", R.n - 1, errname(c->rc),
-               c->off0, c->off1, (int)ctx->state);
+        mc_log("decode call %d: rc=%s source %zu->%zu state=%d%s", R.n - 1, errname(c->rc),
+               c->off0, c->off1, (int)ctx->state,
+               s.fired ? " (source call failed)" : k.fired ? " (sink call failed)" : "");
         mc_log_hex("  emitted", R.out + c->o0, c->olen);
         if (s.overrun || k.overrun) {
             R.hang = true;
@@ -423,9 +532,9 @@ run_decoder(unsigned flags0, int state0, bool use_init_fn, enum kind kind,
         }
         if (c->rc == s.end_code && !c->sfired && !c->kfired && s.pos >= len)
             break;
-        /* progress: every call but the last consumes an octet (or meets the
-         * one injected fault); more calls than that cannot end */
-        if (R.n > (int)len + 3) {
+        /* progress: every call but the last consumes an octet (or meets one
+         * of the at most two injected faults); more calls than that cannot end */
+        if (R.n > (int)len + 5) {
             R.hang = true;
             break;
         }
@@ -458,6 +567,62 @@ eilseq_between(size_t lo, size_t hi)
     return false;
 }
 
+/* Interruption families: every oracle sentence that fails on a folded log is
+ * reported under one clause (the interruption is what made it fail - the same
+ * stream without interruptions is judged by the fault-free families); the
+ * sentence is named in the detail. */
+static const char *clause_override;
+
+static void c12_fail(const char *clause, const char *fmt, ...) __attribute__((format(printf, 2, 3)));
+static void
+c12_fail(const char *clause, const char *fmt, ...)
+{
+    char detail[500];
+    va_list ap;
+    va_start(ap, fmt);
+    vsnprintf(detail, sizeof detail, fmt, ap);
+    va_end(ap);
+    if (clause_override)
+        mc_fail(clause_override, "[%s] %s", clause, detail);
+    else
+        mc_fail(clause, "%s", detail);
+}
+
+/* A decode call that returned the transient code (-EAGAIN/-EINTR) its source
+ * answered during that call is an interruption: no octet was consumed by the
+ * failing source call, the stream is unchanged.  Fold every such call into the
+ * one that follows (the caller keeps the sink across an interruption), so
+ * that the log reads like the log of an uninterrupted decode of the same
+ * stream.  A call during which the source failed but which returned something
+ * else retried the source by itself; it stays as it is. */
+static void
+fold_interruptions(void)
+{
+    int w = 0;
+    bool carry = false;
+    size_t off0 = 0, o0 = 0;
+    for (int i = 0; i < R.n; ++i) {
+        struct dcall c = R.c[i];
+        if (carry) {
+            c.olen += c.o0 - o0;
+            c.o0 = o0;
+            c.off0 = off0;
+        }
+        if (c.sfired && !c.kfired && c.rc == c.fcode && (c.rc == -EAGAIN || c.rc == -EINTR)
+            && i + 1 < R.n) {
+            carry = true;
+            off0 = c.off0;
+            o0 = c.o0;
+            R.folded++;
+            continue;
+        }
+        carry = false;
+        c.sfired = false;
+        R.c[w++] = c;
+    }
+    R.n = w;
+}
+
 /* offset just behind the first delimiter at index >= i, or len */
 static size_t
 behind_next_end(const unsigned char *st, size_t len, size_t i)
@@ -476,7 +641,7 @@ demand_eilseq(const unsigned char *st, size_t len, size_t from, const char *why)
     const size_t lo = (size_t)j + 2;
     const size_t hi = behind_next_end(st, len, (size_t)j + 1);
     if (!eilseq_between(lo, hi))
-        mc_fail("C12/invalid-escape-eilseq",
+        c12_fail("C12/invalid-escape-eilseq",
                 "%s: ESC at offset %ld is followed by %02x, no decode call ending in [%zu,%zu] returned -EILSEQ",
                 why, j, st[j + 1], lo, hi);
 }
@@ -495,7 +660,7 @@ no_spurious(const struct frame *fr, int k, size_t lo, size_t hi, const char *cla
                 && memcmp(fr[j].pl, R.out + c->o0, c->olen) == 0)
                 ok = true;
         if (!ok) {
-            mc_fail(clause, "call %d delivered %zu octets (%s) at offset %zu inside a synchronised run of well-formed frames; no such frame ends there",
+            c12_fail(clause, "call %d delivered %zu octets (%s) at offset %zu inside a synchronised run of well-formed frames; no such frame ends there",
                     i, c->olen, hex(R.out + c->o0, c->olen), c->off1);
             return;
         }
@@ -510,20 +675,23 @@ struct verdict {
 /* The oracle.  `initial`: the decoder started in the context a fresh
  * rfc1055_context_init produces.  `faulted`: an error was injected, only the
  * per-call clauses apply.  cut: the designated garbage length of family (c)
- * (-1: none), only for the outcome class. */
+ * (-1: none), only for the outcome class.  from: the resynchronisation
+ * sentences are applied to delimiters / cut positions at stream index >= from
+ * only (the decoder is behind a failure at that offset; 0: everywhere). */
 static struct verdict
-judge(bool sof, bool initial, bool faulted, const unsigned char *st, size_t len, long cut)
+judge_from(bool sof, bool initial, bool faulted, const unsigned char *st, size_t len, long cut,
+           size_t from)
 {
     struct verdict v;
     memset(&v, 0, sizeof v);
     static struct frame fr[MAXFR];
 
     if (R.hang) {
-        mc_fail("C12/hang", "decode made no progress or exceeded the call budget after %d calls", R.n);
+        c12_fail("C12/hang", "decode made no progress or exceeded the call budget after %d calls", R.n);
         return v;
     }
     if (R.overflow) {
-        mc_fail("C12/emits-at-most-consumed", "decoder put more than %zu octets into the sink for a %zu octet stream", len + 8, len);
+        c12_fail("C12/emits-at-most-consumed", "decoder put more than %zu octets into the sink for a %zu octet stream", len + 8, len);
         return v;
     }
     for (int i = 0; i < R.n; ++i) {
@@ -538,19 +706,19 @@ judge(bool sof, bool initial, bool faulted, const unsigned char *st, size_t len,
         /* cumulative over the call sequence on this stream (sink and source
          * both start at 0): a decoder may hold octets back across calls */
         if (c->o0 + c->olen > c->off1)
-            mc_fail("C12/emits-at-most-consumed", "after call %d the decoder has consumed %zu octets and emitted %zu",
+            c12_fail("C12/emits-at-most-consumed", "after call %d the decoder has consumed %zu octets and emitted %zu",
                     i, c->off1, c->o0 + c->olen);
         const bool last = (i == R.n - 1);
         if (c->sfired || c->kfired)
             continue; /* judged by the fault family */
         if (last) {
             if (c->rc != -ENODATA || c->off1 != len)
-                mc_fail("C12/source-error-unchanged", "source ended with -ENODATA at offset %zu, decode returned %s at offset %zu",
+                c12_fail("C12/source-error-unchanged", "source ended with -ENODATA at offset %zu, decode returned %s at offset %zu",
                         len, errname(c->rc), c->off1);
         } else if (c->rc == 0 || c->rc > 1) {
             /* which negative code a decoder uses for anything but an invalid
              * escape is not fixed by the statement */
-            mc_fail("C12/return-domain", "call %d returned %d (end-of-frame is 1, errors are negative)", i, c->rc);
+            c12_fail("C12/return-domain", "call %d returned %d (end-of-frame is 1, errors are negative)", i, c->rc);
         }
     }
     if (faulted)
@@ -564,7 +732,7 @@ judge(bool sof, bool initial, bool faulted, const unsigned char *st, size_t len,
             const struct dcall *c = i < R.n ? &R.c[i] : NULL;
             if (c == NULL || c->rc != 1 || c->off1 != fr[i].e || c->olen != fr[i].n
                 || memcmp(R.out + c->o0, fr[i].pl, fr[i].n) != 0) {
-                mc_fail("C12/roundtrip-in-order",
+                c12_fail("C12/roundtrip-in-order",
                         "frame %d of the leading well-formed run (stream[%zu,%zu), payload %s) was not delivered by call %d: rc=%s offset=%zu emitted=%s",
                         i, fr[i].s, fr[i].e, hex(fr[i].pl, fr[i].n), i,
                         c ? errname(c->rc) : "none", c ? c->off1 : 0,
@@ -587,13 +755,13 @@ judge(bool sof, bool initial, bool faulted, const unsigned char *st, size_t len,
          * and non-empty, is delivered; an invalid escape in it is reported */
         if (initial)
             demand_eilseq(st, len, 0, "first frame");
-        for (size_t d = 0; d < len; ++d) {
+        for (size_t d = from; d < len; ++d) {
             if (st[d] != O_END)
                 continue;
             const int k = parse_run(false, st, len, d + 1, fr);
             if (k > 0) {
                 if (fr[0].n > 0 && !delivered(&fr[0]))
-                    mc_fail("C12/resync-classic",
+                    c12_fail("C12/resync-classic",
                             "well-formed frame stream[%zu,%zu) payload %s follows the delimiter at offset %zu and was not delivered intact",
                             fr[0].s, fr[0].e, hex(fr[0].pl, fr[0].n), d);
                 no_spurious(fr, k, d + 1, fr[k - 1].e, "C12/resync-classic");
@@ -611,7 +779,7 @@ judge(bool sof, bool initial, bool faulted, const unsigned char *st, size_t len,
     }
 
     /* start-of-frame mode: every cut position */
-    for (size_t g = 0; g < len; ++g) {
+    for (size_t g = from; g < len; ++g) {
         const int k = parse_run(true, st, len, g, fr);
         int seen = 0;
         size_t sync = 0;
@@ -626,7 +794,7 @@ judge(bool sof, bool initial, bool faulted, const unsigned char *st, size_t len,
             if ((long)g == cut)
                 v.required++;
             if (!delivered(&fr[i])) {
-                mc_fail("C12/resync-sof",
+                c12_fail("C12/resync-sof",
                         "cut at offset %zu: well-formed frame stream[%zu,%zu) payload %s is not the first non-empty frame behind the cut and was not delivered intact",
                         g, fr[i].s, fr[i].e, hex(fr[i].pl, fr[i].n));
                 break;
@@ -642,6 +810,12 @@ judge(bool sof, bool initial, bool faulted, const unsigned char *st, size_t len,
     return v;
 }
 
+static struct verdict
+judge(bool sof, bool initial, bool faulted, const unsigned char *st, size_t len, long cut)
+{
+    return judge_from(sof, initial, faulted, st, len, cut, 0);
+}
+
 /* ------------------------------------------------------------------------- */
 /* running the real encoder                                                   */
 
@@ -651,7 +825,18 @@ static struct {
     size_t n;
     size_t consumed;
     bool overflow, hang, sfired, kfired;
+    unsigned answered; /* non-default answers the scripted sink really gave */
 } E;
+
+/* environment of the next run_encoder call (reset by the caller) */
+static struct {
+    const signed char *script; /* sink answer script */
+    int nscript;
+    size_t block;              /* sink is a FIFO drained in blocks of this size */
+    RFC1055Context *ctx;       /* use this context (reused across frames) instead of a fresh one */
+    long src_at2_plus1;        /* second failing source call */
+    int code2;
+} EENV;
 
 /* Appends to E.out when append is set (concatenation family). */
 static void
@@ -660,7 +845,11 @@ run_encoder(bool sof, bool use_init_fn, enum kind kind, const unsigned char *p, 
 {
     unsigned char *in = mc_exact_copy(p, n);
     RFC1055Context *ctx = mc_exact(sizeof *ctx);
-    if (use_init_fn) {
+    if (EENV.ctx) {
+        free(ctx);
+        ctx = EENV.ctx;
+    } else if (use_init_fn) {
+        memset(ctx, 0xa5, sizeof *ctx);
         rfc1055_context_init(ctx, sof ? RFC1055_WITH_SOF : RFC1055_DEFAULT);
     } else if (sof) {
         const RFC1055Context c = RFC1055_CONTEXT_INIT_WITH_SOF;
@@ -680,8 +869,14 @@ run_encoder(bool sof, bool use_init_fn, enum kind kind, const unsigned char *p, 
     snk_setup(&k, &sink, kind, E.out + base, 2 * n + 2 + 6);
     s.err_at = inj.src_at;
     s.err_code = inj.code;
+    s.err_at2 = EENV.src_at2_plus1 - 1;
+    s.err_code2 = EENV.code2;
     k.err_at = inj.snk_at;
     k.err_code = inj.code;
+    k.script = EENV.script;
+    k.nscript = EENV.nscript;
+    k.block = EENV.block;
+    k.budget += 2 * (long)EENV.nscript;
     E.rc = rfc1055_encode(ctx, &source, &sink);
     mc_trans(1);
     E.n = base + k.n;
@@ -690,9 +885,11 @@ run_encoder(bool sof, bool use_init_fn, enum kind kind, const unsigned char *p, 
     E.hang = s.overrun || k.overrun;
     E.sfired = s.fired;
     E.kfired = k.fired;
-    mc_log("encode rc=%s consumed=%zu of %zu", errname(E.rc), s.pos, n);
+    E.answered = k.answered;
+    mc_log("encode rc=%s consumed=%zu of %zu, %ld sink calls", errname(E.rc), s.pos, n, k.calls);
     mc_log_hex("  encoding", E.out + base, k.n);
-    free(ctx);
+    if (ctx != EENV.ctx)
+        free(ctx);
     free(in);
 }
 
@@ -812,9 +1009,28 @@ all_special(const unsigned char *p, size_t n)
     return n > 0;
 }
 
-#ifndef C12_ESTATE
-/* ========================================================================= */
-/* E-SPACE families                                                           */
+/* What a stream is, lexically (outcome classes must not depend on what the
+ * implementation under test makes of the stream: a misbehaving decoder has to
+ * end in a violation, never in a vacuity failure of the check). */
+struct lexclass {
+    int frames, nonempty_frames; /* of the leading run of well-formed frames */
+    bool invalid_escape;         /* some ESC is followed by an octet other than dc/dd */
+};
+
+static struct lexclass
+lex_class(bool sof, const unsigned char *st, size_t len)
+{
+    static struct frame fr[MAXFR];
+    struct lexclass lc = { 0, 0, false };
+    lc.frames = parse_run(sof, st, len, 0, fr);
+    for (int i = 0; i < lc.frames; ++i)
+        if (fr[i].n)
+            lc.nonempty_frames++;
+    for (size_t i = 0; i + 1 < len; ++i)
+        if (st[i] == O_ESC && st[i + 1] != O_ESC_END && st[i + 1] != O_ESC_ESC)
+            lc.invalid_escape = true;
+    return lc;
+}
 
 /* decode E.out[0,E.n) from a fresh context and demand exactly `want` */
 static void
@@ -826,6 +1042,62 @@ roundtrip_decode(bool sof, bool use_init_fn, enum kind kind)
     run_decoder(sof ? RFC1055_WITH_SOF : RFC1055_DEFAULT, -1, use_init_fn, kind,
                 stream, len, NO_INJECT);
 }
+
+/* a complete, successful encode of p: all encoding clauses + decode round trip */
+static void
+judge_complete_encoding(bool sof, bool initfn, const unsigned char *p, size_t n)
+{
+    if (!judge_encoding(sof, p, n, 0))
+        return;
+    roundtrip_decode(sof, initfn, K_OCTET);
+    judge(sof, true, false, E.out, E.n, -1);
+    if (!mc.cur_failed
+        && !(R.n == 2 && R.c[0].rc == 1 && R.c[0].olen == n && memcmp(R.out, p, n) == 0
+             && R.c[0].off1 == E.n))
+        mc_fail("C12/roundtrip-in-order", "encode reported success, but what reached the sink (%s) does not decode to the payload followed by the end of the source: %d calls, first rc=%s emitted=%s",
+                hex(E.out, E.n > 40 ? 40 : E.n), R.n, errname(R.c[0].rc), hex(R.out, R.c[0].olen));
+}
+
+/* where a source interruption hits the stream */
+enum at { AT_BOUNDARY, AT_INSIDE_FRAME, AT_INSIDE_ESCAPE, AT_UNFRAMED, AT_END, AT_N };
+static const char *const AT_NAME[AT_N] = { "frame-boundary", "inside-frame", "inside-escape", "unframed", "end-of-stream" };
+
+/* where in the stream the decoder is when the source call that would deliver
+ * st[k] fails - by what the stream is */
+static enum at
+position_class(bool sof, const unsigned char *st, size_t len, size_t k)
+{
+    static struct frame fr[MAXFR];
+    if (k > 0 && st[k - 1] == O_ESC) {
+        /* is that ESC the first octet of an escape, pairing from the last delimiter? */
+        size_t b = k - 1;
+        while (b > 0 && st[b - 1] != O_END)
+            b--;
+        for (size_t i = b; i < k;) {
+            if (st[i] != O_ESC)
+                i++;
+            else if (i == k - 1)
+                return AT_INSIDE_ESCAPE;
+            else
+                i += 2;
+        }
+    }
+    const int nfr = parse_run(sof, st, len, 0, fr);
+    if (k == 0)
+        return AT_BOUNDARY;
+    for (int i = 0; i < nfr; ++i)
+        if (k == fr[i].e)
+            return AT_BOUNDARY;
+    if (k == len)
+        return AT_END;
+    if (nfr && k < fr[nfr - 1].e)
+        return AT_INSIDE_FRAME;
+    return AT_UNFRAMED;
+}
+
+#ifndef C12_ESTATE
+/* ========================================================================= */
+/* E-SPACE families                                                           */
 
 /* (a) every payload: encode, clauses on the encoding, decode back */
 static void
@@ -858,12 +1130,18 @@ family_roundtrip(size_t maxlen)
             }
 }
 
-/* (a') every ordered pair: two encode calls into one sink, decode the lot */
+/* (a') every ordered pair: two encode calls into one sink, decode the lot.
+ * ctxmode 0: a fresh rfc1055_context_init context per call (encode, encode,
+ * decode); 1: one context object set up by rfc1055_context_init and used for
+ * both encode calls and then for the decode; 2: the same with a context set
+ * up by the header's static initialiser. */
 static void
 family_pairs(size_t maxlen)
 {
     unsigned char p1[8], p2[8];
+    static const char *const cm[3] = { "fresh", "reused-init-function", "reused-static-initialiser" };
     for (int sof = 0; sof < 2; ++sof)
+        for (int ctxmode = 0; ctxmode < 3; ++ctxmode)
         for (size_t n1 = 0; n1 <= maxlen; ++n1)
             for (uint64_t i1 = 0; i1 < P5[n1]; ++i1)
                 for (size_t n2 = 0; n2 <= maxlen; ++n2)
@@ -874,7 +1152,22 @@ family_pairs(size_t maxlen)
                         }
                         nth_string(n1, i1, p1);
                         nth_string(n2, i2, p2);
-                        mc_case("pair mode=%s p1=%s p2=%s", modename(sof), hex(p1, n1), hex(p2, n2));
+                        mc_case("pair mode=%s context=%s p1=%s p2=%s", modename(sof), cm[ctxmode],
+                                hex(p1, n1), hex(p2, n2));
+                        RFC1055Context *shared = NULL;
+                        if (ctxmode) {
+                            shared = mc_exact(sizeof *shared);
+                            memset(shared, 0, sizeof *shared);
+                            if (ctxmode == 1) {
+                                memset(shared, 0xa5, sizeof *shared);
+                                rfc1055_context_init(shared, sof ? RFC1055_WITH_SOF : RFC1055_DEFAULT);
+                            } else {
+                                const RFC1055Context c0 = RFC1055_CONTEXT_INIT_DEFAULT;
+                                const RFC1055Context c1 = RFC1055_CONTEXT_INIT_WITH_SOF;
+                                memcpy(shared, sof ? &c1 : &c0, sizeof *shared);
+                            }
+                        }
+                        EENV.ctx = shared;
                         run_encoder(sof, true, K_OCTET, p1, n1, NO_INJECT, false);
                         bool ok = judge_encoding(sof, p1, n1, 0);
                         const size_t mid = E.n;
@@ -882,8 +1175,13 @@ family_pairs(size_t maxlen)
                             run_encoder(sof, true, K_OCTET, p2, n2, NO_INJECT, true);
                             ok = judge_encoding(sof, p2, n2, mid);
                         }
+                        EENV.ctx = NULL;
                         if (ok) {
+                            /* the context object that encoded is the one that decodes */
+                            if (shared)
+                                ctx_image_in = (const unsigned char *)shared;
                             roundtrip_decode(sof, true, K_OCTET);
+                            ctx_image_in = NULL;
                             judge(sof, true, false, E.out, E.n, -1);
                             if (!mc.cur_failed
                                 && !(R.n == 3 && R.c[0].rc == 1 && R.c[1].rc == 1
@@ -892,7 +1190,9 @@ family_pairs(size_t maxlen)
                                      && R.c[0].off1 == mid && R.c[1].off1 == E.n))
                                 mc_fail("C12/roundtrip-in-order", "concatenated encodings did not decode to (p1, p2, end of source): %d calls", R.n);
                         }
-                        mc_end(n1 + n2 > 0, (n1 == 0 || n2 == 0) ? "pair-with-empty" : "pair");
+                        free(shared);
+                        mc_end(n1 + n2 > 0, ctxmode ? "pair-context-reused"
+                               : (n1 == 0 || n2 == 0) ? "pair-with-empty" : "pair");
                     }
 }
 
@@ -917,6 +1217,52 @@ family_macro(void)
         }
         mc_end(true, "worst-case-macro");
     }
+    /* The same for lengths of type size_t / uint64_t around every power of
+     * two up to the largest n whose bound 2n+2 is still a size_t (a payload
+     * that long is a stream, not a buffer: the encoder has no length limit),
+     * and for arguments that are expressions.  Pure arithmetic, no memory. */
+    const int kmax = (int)(sizeof(size_t) * 8) - 1;
+    for (int sof = 0; sof < 2; ++sof)
+        for (int k = 1; k <= kmax; ++k) {
+            if (!mc_case("worst-case-macro-wide mode=%s n=2^%d-2..2^%d+2 (size_t and uint64_t arguments, plain and as expressions)",
+                         modename(sof), k, k))
+                continue;
+            for (int d = -2; d <= 2; ++d) {
+                const size_t n = ((size_t)1 << k) + (size_t)(long)d;
+                if (n > (SIZE_MAX - 2) / 2)
+                    continue;
+                const size_t want = 2 * n + (sof ? 2 : 1);
+                const uint64_t n64 = n;
+                const size_t a = n / 3, b = n - n / 3;
+                const unsigned flags = sof ? RFC1055_WITH_SOF : RFC1055_DEFAULT;
+                const size_t got[6] = {
+                    sof ? RFC1055_WORST_WITHSOF(n) : RFC1055_WORST_CLASSIC(n),
+                    RFC1055_WORST_CASE(n, sof != 0),
+                    (size_t)(sof ? RFC1055_WORST_WITHSOF(n64) : RFC1055_WORST_CLASSIC(n64)),
+                    sof ? RFC1055_WORST_WITHSOF(a + b) : RFC1055_WORST_CLASSIC(a + b),
+                    RFC1055_WORST_CASE(a + b, flags & RFC1055_WITH_SOF),
+                    RFC1055_WORST_CASE(n, sof ? true : false) + 0u,
+                };
+                static const char *const form[6] = {
+                    "WORST_CLASSIC/WITHSOF(n)", "WORST_CASE(n, sof != 0)", "WORST_CLASSIC/WITHSOF((uint64_t)n)",
+                    "WORST_CLASSIC/WITHSOF(a + b)", "WORST_CASE(a + b, flags & RFC1055_WITH_SOF)",
+                    "WORST_CASE(n, sof ? true : false) + 0u" };
+                for (int i = 0; i < 6; ++i)
+                    if (got[i] < want) {
+                        mc_fail("C12/worst-case-macro", "RFC1055_%s with n = %zu (a = %zu, b = %zu), mode %s, is %zu: below the worst-case encoding length %zu",
+                                form[i], n, a, b, modename(sof), got[i], want);
+                        break;
+                    }
+                /* the macro as an operand: a caller adding a header to it */
+                if (n < 100000) {
+                    const size_t t = 3u * RFC1055_WORST_CASE(n, sof != 0);
+                    if (t < 3 * want)
+                        mc_fail("C12/worst-case-macro", "3u * RFC1055_WORST_CASE(%zu,%s) is %zu: below 3 x the worst-case encoding length %zu",
+                                n, sof ? "true" : "false", t, want);
+                }
+            }
+            mc_end(true, k >= 31 ? "worst-case-macro-beyond-32-bit" : "worst-case-macro-wide");
+        }
 }
 
 /* (b) every class string as raw decoder input */
@@ -934,10 +1280,12 @@ family_raw(size_t maxlen)
                 nth_string(n, idx, st);
                 mc_case("raw mode=%s stream=%s", modename(sof), hex(st, n));
                 run_decoder(sof ? RFC1055_WITH_SOF : RFC1055_DEFAULT, 0, true, K_OCTET, st, n, NO_INJECT);
-                struct verdict v = judge(sof, true, false, st, n, -1);
-                const char *o = v.eilseq ? (v.nonempty ? "raw-eilseq-and-frames" : "raw-eilseq")
-                    : v.nonempty ? "raw-frames" : v.deliveries ? "raw-empty-frames" : "raw-no-frame";
-                mc_end(v.eilseq + v.deliveries > 0, o);
+                judge(sof, true, false, st, n, -1);
+                /* classes by what the stream is, not by what the decoder made of it */
+                const struct lexclass lc = lex_class(sof, st, n);
+                const char *o = lc.invalid_escape ? (lc.nonempty_frames ? "raw-eilseq-and-frames" : "raw-eilseq")
+                    : lc.nonempty_frames ? "raw-frames" : lc.frames ? "raw-empty-frames" : "raw-no-frame";
+                mc_end(lc.invalid_escape || lc.frames > 0, o);
             }
 }
 
@@ -969,8 +1317,8 @@ family_raw_escape_all(void)
                 }
                 mc_log_hex("stream", st, n);
                 run_decoder(sof ? RFC1055_WITH_SOF : RFC1055_DEFAULT, 0, true, K_OCTET, st, n, NO_INJECT);
-                struct verdict vd = judge(sof, true, false, st, n, -1);
-                mc_end(true, vd.eilseq ? "escape-rejected" : "escape-accepted");
+                judge(sof, true, false, st, n, -1);
+                mc_end(true, (v == O_ESC_END || v == O_ESC_ESC) ? "escape-valid" : "escape-invalid");
             }
 }
 
@@ -998,13 +1346,18 @@ resync_case(bool sof, const unsigned char *g, size_t gl, const int *f, int nf)
     run_decoder(sof ? RFC1055_WITH_SOF : RFC1055_DEFAULT, 0, true, K_OCTET, st, len, NO_INJECT);
     /* gl == 0 is the concatenation clause again, judged as `initial` */
     struct verdict v = judge(sof, true, false, st, len, (long)gl);
+    /* classes by what the stream is (v.required is computed from the stream) */
     const char *o;
     if (v.required == 0)
         o = "resync-nothing-owed";
-    else if (v.eilseq)
-        o = (sof && v.lost_first) ? "resync-after-eilseq-first-lost" : "resync-after-eilseq";
+    else if (gl == 0)
+        o = "resync-no-garbage";
+    else if (lex_class(false, g, gl).invalid_escape)
+        o = "resync-after-invalid-escape";
+    else if (memchr(g, O_END, gl))
+        o = "resync-garbage-with-delimiter";
     else
-        o = (sof && v.lost_first) ? "resync-silent-first-lost" : "resync-silent";
+        o = "resync-garbage-without-delimiter";
     mc_end(v.required > 0, o);
 }
 
@@ -1044,8 +1397,12 @@ family_resync3(size_t gmax)
             }
 }
 
-/* (d) error injection */
-static const int CODES[2] = { -EIO, -EPIPE };
+/* (d) error injection.  Hard codes come back unchanged; the two codes the
+ * endpoint contract defines as "nothing done, call again" (-EAGAIN, -EINTR)
+ * come back unchanged or are retried by the library (sink_put_chunk does). */
+static const int CODES[4] = { -EIO, -EPIPE, -EAGAIN, -EINTR };
+#define NHARD 2
+#define TRANSIENT(code) ((code) == -EAGAIN || (code) == -EINTR)
 
 static void
 family_fault_encode(size_t maxlen)
@@ -1061,7 +1418,7 @@ family_fault_encode(size_t maxlen)
                      * one per payload octet plus the call that reports the end */
                     const long npos = which == 0 ? (long)m : (long)n + 1;
                     for (long at = 0; at < npos; ++at)
-                        for (int ci = 0; ci < 2; ++ci) {
+                        for (int ci = 0; ci < 4; ++ci) {
                             if (!mc_would_run()) {
                                 mc_skip_case();
                                 continue;
@@ -1069,64 +1426,323 @@ family_fault_encode(size_t maxlen)
                             mc_case("fault-encode mode=%s payload=%s %s-call=%ld code=%s",
                                     modename(sof), hex(p, n), which ? "source" : "sink", at,
                                     errname(CODES[ci]));
-                            struct inject inj = { which ? at : -1, which ? -1 : at, CODES[ci] };
+                            struct inject inj = { which ? at : -1, which ? -1 : at, CODES[ci], 0, 0 };
                             run_encoder(sof, true, K_OCTET, p, n, inj, false);
                             const bool fired = which ? E.sfired : E.kfired;
                             if (E.hang)
                                 mc_fail("C12/hang", "encode exceeded the driver call budget");
-                            else if (fired && E.rc != CODES[ci])
-                                mc_fail(which ? "C12/source-error-unchanged" : "C12/sink-error-unchanged",
-                                        "%s failed with %s, encode returned %s", which ? "source" : "sink",
-                                        errname(CODES[ci]), errname(E.rc));
-                            else if (!fired && E.rc < 0)
+                            else if (fired && E.rc != CODES[ci]) {
+                                if (ci < NHARD || E.rc < 0)
+                                    mc_fail(which ? "C12/source-error-unchanged" : "C12/sink-error-unchanged",
+                                            "%s failed with %s, encode returned %s", which ? "source" : "sink",
+                                            errname(CODES[ci]), errname(E.rc));
+                                else /* retried the interrupted call: then the encoding is complete */
+                                    judge_complete_encoding(sof, true, p, n);
+                            } else if (!fired && E.rc < 0)
                                 mc_fail("C12/encode-succeeds", "no driver failed, encode returned %s", errname(E.rc));
                             mc_end(fired, !fired ? "fault-not-reached"
-                                   : which ? "encode-source-error" : "encode-sink-error");
+                                   : which ? (ci < NHARD ? "encode-source-error" : "encode-source-interrupted")
+                                   : (ci < NHARD ? "encode-sink-error" : "encode-sink-interrupted"));
                         }
                 }
             }
 }
 
-static void
-family_fault_decode(size_t maxlen)
+/* Streams of the history families: every class string up to rawmax octets,
+ * every sequence of two well-formed frames with payload ids < p2 and of three
+ * with payload ids < p3 (PL[]: payloads by length, then class order). */
+struct sset {
+    size_t rawmax;
+    int p2, p3;
+};
+
+static uint64_t
+sset_count(const struct sset *ss)
 {
-    unsigned char st[8];
+    uint64_t c = 0;
+    for (size_t n = 0; n <= ss->rawmax; ++n)
+        c += P5[n];
+    return c + (uint64_t)ss->p2 * ss->p2 + (uint64_t)ss->p3 * ss->p3 * ss->p3;
+}
+
+static void
+sset_get(const struct sset *ss, bool sof, uint64_t id, unsigned char *st, size_t *len)
+{
+    for (size_t n = 0; n <= ss->rawmax; ++n) {
+        if (id < P5[n]) {
+            nth_string(n, id, st);
+            *len = n;
+            return;
+        }
+        id -= P5[n];
+    }
+    int f[3], nf;
+    const uint64_t q2 = (uint64_t)ss->p2 * ss->p2;
+    if (id < q2) {
+        nf = 2;
+        f[0] = (int)(id / ss->p2);
+        f[1] = (int)(id % ss->p2);
+    } else {
+        id -= q2;
+        nf = 3;
+        f[0] = (int)(id / ((uint64_t)ss->p3 * ss->p3));
+        f[1] = (int)(id / ss->p3 % ss->p3);
+        f[2] = (int)(id % ss->p3);
+    }
+    size_t l = 0;
+    for (int i = 0; i < nf; ++i)
+        l += ref_encode(sof, PL[f[i]], PLN[f[i]], st + l);
+    *len = l;
+}
+
+/* (d') hard source errors and all sink errors while decoding, and the decoder
+ * used on with the same context and source: the injected code comes back
+ * unchanged (-EAGAIN/-EINTR of the sink: or the call is retried), and behind
+ * the failure the decoder resynchronises like behind any corrupted prefix
+ * (the statement does not say more about the frame that was in flight: with a
+ * sink that refused an octet, that octet may be gone). */
+static void
+family_fault_decode(const struct sset *ss)
+{
+    unsigned char st[40];
+    size_t n;
+    const uint64_t ns = sset_count(ss);
     for (int sof = 0; sof < 2; ++sof)
-        for (size_t n = 1; n <= maxlen; ++n)
-            for (uint64_t idx = 0; idx < P5[n]; ++idx) {
-                nth_string(n, idx, st);
-                for (int which = 0; which < 2; ++which) {
-                    /* source call k (k = 0..n; without faults call n reports
-                     * the end); sink call k < n (emitted <= consumed) */
-                    const long npos = which ? (long)n + 1 : (long)n;
-                    for (long at = 0; at < npos; ++at)
-                        for (int ci = 0; ci < 2; ++ci) {
-                            if (!mc_would_run()) {
-                                mc_skip_case();
-                                continue;
-                            }
-                            mc_case("fault-decode mode=%s stream=%s %s-call=%ld code=%s",
-                                    modename(sof), hex(st, n), which ? "source" : "sink", at,
-                                    errname(CODES[ci]));
-                            struct inject inj = { which ? at : -1, which ? -1 : at, CODES[ci] };
-                            run_decoder(sof ? RFC1055_WITH_SOF : RFC1055_DEFAULT, 0, true, K_OCTET, st, n, inj);
-                            judge(sof, true, true, st, n, -1);
-                            bool fired = false;
-                            for (int i = 0; i < R.n; ++i) {
-                                const struct dcall *c = &R.c[i];
-                                if (!(c->sfired || c->kfired))
-                                    continue;
-                                fired = true;
-                                if (c->rc != CODES[ci])
-                                    mc_fail(which ? "C12/source-error-unchanged" : "C12/sink-error-unchanged",
-                                            "%s failed with %s during call %d, decode returned %s",
-                                            which ? "source" : "sink", errname(CODES[ci]), i, errname(c->rc));
-                            }
-                            mc_end(fired, !fired ? "fault-not-reached"
-                                   : which ? "decode-source-error" : "decode-sink-error");
+        for (uint64_t sid = 1; sid < ns; ++sid) {
+            sset_get(ss, sof, sid, st, &n);
+            for (int which = 0; which < 2; ++which) {
+                /* source call k (k = 0..n; without faults call n reports
+                 * the end); sink call k < n (emitted <= consumed) */
+                const long npos = which ? (long)n + 1 : (long)n;
+                const int ncodes = which ? NHARD : 4; /* -EAGAIN/-EINTR of the source: family (g) */
+                for (long at = 0; at < npos; ++at)
+                    for (int ci = 0; ci < ncodes; ++ci) {
+                        if (!mc_would_run()) {
+                            mc_skip_case();
+                            continue;
                         }
-                }
+                        mc_case("fault-decode mode=%s stream=%s %s-call=%ld code=%s, decoding continued",
+                                modename(sof), hex(st, n), which ? "source" : "sink", at,
+                                errname(CODES[ci]));
+                        struct inject inj = { which ? at : -1, which ? -1 : at, CODES[ci], 0, 0 };
+                        run_decoder(sof ? RFC1055_WITH_SOF : RFC1055_DEFAULT, 0, true, K_OCTET, st, n, inj);
+                        judge(sof, true, true, st, n, -1);
+                        bool fired = false;
+                        size_t behind = 0;
+                        for (int i = 0; i < R.n; ++i) {
+                            const struct dcall *c = &R.c[i];
+                            if (!(c->sfired || c->kfired))
+                                continue;
+                            fired = true;
+                            behind = c->off1;
+                            const bool retried = ci >= NHARD
+                                && (c->rc == 1 || c->rc == -EILSEQ || (c->rc == -ENODATA && c->off1 == n));
+                            if (c->rc != CODES[ci] && !retried)
+                                mc_fail(which ? "C12/source-error-unchanged" : "C12/sink-error-unchanged",
+                                        "%s failed with %s during call %d, decode returned %s",
+                                        which ? "source" : "sink", errname(CODES[ci]), i, errname(c->rc));
+                        }
+                        if (fired && !R.hang && !R.overflow)
+                            judge_from(sof, false, false, st, n, -1, behind);
+                        mc_end(fired, !fired ? "fault-not-reached"
+                               : which ? "decode-source-error"
+                               : ci < NHARD ? "decode-sink-error" : "decode-sink-interrupted");
+                    }
             }
+        }
+}
+
+/* (g) the source interrupts the decoder: -EAGAIN / -EINTR at every source
+ * call position (one interruption; two, also back to back), both modes, both
+ * ways to set a context up, octet and chunk drivers; same context, same
+ * source afterwards.  The interruption consumed nothing, so the statement
+ * speaks about the stream as if it had not happened. */
+static void
+interrupt_case(bool sof, int setup, const unsigned char *st, size_t len, long k1, int c1, long k2, int c2)
+{
+    if (!mc_would_run()) {
+        mc_skip_case();
+        return;
+    }
+    /* setup 0: rfc1055_context_init + octet drivers; 1: static initialiser + chunk drivers */
+    const enum at at1 = position_class(sof, st, len, (size_t)k1);
+    if (k2 < 0) {
+        mc_case("interrupt mode=%s setup=%s stream=%s source-call=%ld code=%s at=%s", modename(sof),
+                setup ? "static-initialiser/chunk-drivers" : "init-function/octet-drivers", hex(st, len),
+                k1, errname(c1), AT_NAME[at1]);
+    } else {
+        /* the second failing call comes one call later than the position it is at */
+        const enum at at2 = position_class(sof, st, len, (size_t)(k2 - 1));
+        mc_case("interrupt mode=%s setup=%s stream=%s source-call=%ld code=%s at=%s and source-call=%ld code=%s at=%s",
+                modename(sof), setup ? "static-initialiser/chunk-drivers" : "init-function/octet-drivers",
+                hex(st, len), k1, errname(c1), AT_NAME[at1], k2, errname(c2), AT_NAME[at2]);
+    }
+    struct inject inj = { k1, -1, c1, k2 >= 0 ? k2 + 1 : 0, c2 };
+    run_decoder(sof ? RFC1055_WITH_SOF : RFC1055_DEFAULT, -1, setup == 0, setup ? K_CHUNK : K_OCTET,
+                st, len, inj);
+    bool fired = false;
+    for (int i = 0; i < R.n; ++i) {
+        const struct dcall *c = &R.c[i];
+        if (!c->sfired)
+            continue;
+        fired = true;
+        /* returned unchanged, or the source was asked again within the call */
+        if (c->rc != c->fcode && c->rc != 1 && c->rc != -EILSEQ && !(c->rc == -ENODATA && c->off1 == len))
+            mc_fail("C12/source-error-unchanged", "source answered %s during call %d, decode returned %s",
+                    errname(c->fcode), i, errname(c->rc));
+    }
+    fold_interruptions();
+    if (R.folded)
+        mc_log("%d interrupted call(s) folded into their successors", R.folded);
+    clause_override = "C12/source-interruption-transparent";
+    judge(sof, true, false, st, len, -1);
+    clause_override = NULL;
+    mc_end(fired, k2 >= 0 ? "interrupt-twice"
+           : at1 == AT_BOUNDARY ? "interrupt-at-frame-boundary"
+           : at1 == AT_INSIDE_FRAME ? "interrupt-inside-frame"
+           : at1 == AT_INSIDE_ESCAPE ? "interrupt-inside-escape"
+           : at1 == AT_UNFRAMED ? "interrupt-unframed" : "interrupt-at-end-of-stream");
+}
+
+static void
+family_interrupt(const struct sset *one, const struct sset *two)
+{
+    unsigned char st[40];
+    size_t len;
+    static const int TC[2] = { -EAGAIN, -EINTR };
+    for (int sof = 0; sof < 2; ++sof)
+        for (int setup = 0; setup < 2; ++setup) {
+            const uint64_t n1 = sset_count(one);
+            for (uint64_t sid = 0; sid < n1; ++sid) {
+                sset_get(one, sof, sid, st, &len);
+                for (long k = 0; k <= (long)len; ++k)
+                    for (int ci = 0; ci < 2; ++ci)
+                        interrupt_case(sof, setup, st, len, k, TC[ci], -1, 0);
+            }
+            const uint64_t n2 = sset_count(two);
+            for (uint64_t sid = 0; sid < n2; ++sid) {
+                sset_get(two, sof, sid, st, &len);
+                for (long k1 = 0; k1 <= (long)len; ++k1)
+                    for (long k2 = k1 + 1; k2 <= (long)len + 1; ++k2)
+                        for (int ci = 0; ci < 4; ++ci)
+                            interrupt_case(sof, setup, st, len, k1, TC[ci & 1], k2, TC[ci >> 1]);
+            }
+        }
+}
+
+/* (h) the encoder in front of a sink that writes short, takes nothing,
+ * interrupts or fails, per call position.  Hard error: returned unchanged.
+ * -EAGAIN/-EINTR: returned unchanged or retried.  Whenever encode reports
+ * success, what reached the sink is a complete encoding of the payload. */
+static void
+script_text(const signed char *sc, int ns, char *buf, size_t n)
+{
+    size_t l = 0;
+    buf[0] = 0;
+    for (int i = 0; i < ns && l + 12 < n; ++i)
+        if (sc[i] != A_ALL)
+            l += (size_t)snprintf(buf + l, n - l, "%s%d:%s", l ? "," : "", i, ANS_NAME[sc[i]]);
+    if (l == 0)
+        snprintf(buf, n, "none");
+}
+
+static void
+judge_scripted_encode(bool sof, bool initfn, const unsigned char *p, size_t n)
+{
+    if (E.hang) {
+        mc_fail("C12/hang", "encode exceeded the driver call budget");
+    } else if (E.answered & ANS_BIT(A_EIO)) {
+        if (E.rc != -EIO)
+            mc_fail("C12/sink-error-unchanged", "sink failed with -EIO, encode returned %s", errname(E.rc));
+    } else if (E.rc < 0) {
+        if (!((E.rc == -EAGAIN && (E.answered & ANS_BIT(A_EAGAIN)))
+              || (E.rc == -EINTR && (E.answered & ANS_BIT(A_EINTR)))))
+            mc_fail("C12/encode-succeeds", "encode returned %s, the sink never answered that", errname(E.rc));
+    } else {
+        judge_complete_encoding(sof, initfn, p, n);
+    }
+}
+
+static void
+scripted_encode_case(bool sof, enum kind kind, const unsigned char *p, size_t n,
+                     const signed char *sc, int ns, int ndev)
+{
+    if (!mc_would_run()) {
+        mc_skip_case();
+        return;
+    }
+    char txt[96];
+    script_text(sc, ns, txt, sizeof txt);
+    /* chunk sink + static initialiser, octet sink + init function */
+    mc_case("encode-script mode=%s sink=%s payload=%s sink-answers=[%s]", modename(sof),
+            kind == K_CHUNK ? "chunk/static-initialiser" : "octet/init-function", hex(p, n), txt);
+    memset(&EENV, 0, sizeof EENV);
+    EENV.script = sc;
+    EENV.nscript = ns;
+    run_encoder(sof, kind == K_OCTET, kind, p, n, NO_INJECT, false);
+    memset(&EENV, 0, sizeof EENV);
+    judge_scripted_encode(sof, kind == K_OCTET, p, n);
+    unsigned has = 0;
+    for (int i = 0; i < ns; ++i)
+        has |= ANS_BIT(sc[i]);
+    mc_end(E.answered != 0, ndev > 1 ? "encode-sink-two-deviations"
+           : (has & ANS_BIT(A_ONE)) ? "encode-sink-short-write"
+           : (has & ANS_BIT(A_ZERO)) ? "encode-sink-zero-write"
+           : (has & ANS_BIT(A_EIO)) ? "encode-sink-hard-error" : "encode-sink-interrupt");
+}
+
+static void
+family_encode_scripts(size_t max1, size_t max2, size_t maxfifo)
+{
+    unsigned char p[8];
+    signed char sc[24];
+    for (int sof = 0; sof < 2; ++sof)
+        for (int kind = 0; kind < 2; ++kind)
+            for (size_t n = 0; n <= max1; ++n)
+                for (uint64_t idx = 0; idx < P5[n]; ++idx) {
+                    nth_string(n, idx, p);
+                    /* call slots: no sane encoder needs more than one call per encoded octet */
+                    const int slots = (int)(2 * n + 3);
+                    /* an octet sink is offered one octet per call: no short / zero writes */
+                    const int a0 = kind == K_OCTET ? A_EAGAIN : A_ONE;
+                    for (int s1 = 0; s1 < slots; ++s1)
+                        for (int a1 = a0; a1 < A_NANSWERS; ++a1) {
+                            memset(sc, A_ALL, sizeof sc);
+                            sc[s1] = (signed char)a1;
+                            scripted_encode_case(sof, (enum kind)kind, p, n, sc, slots, 1);
+                        }
+                    if (n > max2)
+                        continue;
+                    for (int s1 = 0; s1 < slots; ++s1)
+                        for (int s2 = s1 + 1; s2 < slots; ++s2)
+                            for (int a1 = a0; a1 < A_NANSWERS; ++a1)
+                                for (int a2 = a0; a2 < A_NANSWERS; ++a2) {
+                                    memset(sc, A_ALL, sizeof sc);
+                                    sc[s1] = (signed char)a1;
+                                    sc[s2] = (signed char)a2;
+                                    scripted_encode_case(sof, (enum kind)kind, p, n, sc, slots, 2);
+                                }
+                }
+    /* a transmit FIFO drained in blocks: every write ends at the next block boundary */
+    for (int sof = 0; sof < 2; ++sof)
+        for (size_t n = 0; n <= maxfifo; ++n)
+            for (uint64_t idx = 0; idx < P5[n]; ++idx)
+                for (size_t block = 1; block <= 8; ++block) {
+                    if (!mc_would_run()) {
+                        mc_skip_case();
+                        continue;
+                    }
+                    nth_string(n, idx, p);
+                    const bool initfn = (block & 1) != 0;
+                    mc_case("encode-fifo mode=%s init=%s payload=%s chunk sink accepting up to the next multiple of %zu octets",
+                            modename(sof), initfn ? "function" : "macro", hex(p, n), block);
+                    memset(&EENV, 0, sizeof EENV);
+                    EENV.block = block;
+                    run_encoder(sof, initfn, K_CHUNK, p, n, NO_INJECT, false);
+                    memset(&EENV, 0, sizeof EENV);
+                    judge_scripted_encode(sof, initfn, p, n);
+                    mc_end(n > 0, "encode-sink-fifo-blocks");
+                }
 }
 
 /* (f) the "random full-alphabet payloads up to 1 KiB" clause, replaced by
@@ -1235,12 +1851,32 @@ main(int argc, char **argv)
         family_resync3(3);
     }
     family_fault_encode(th ? 5 : 3);
-    family_fault_decode(th ? 6 : 4);
+    {
+        const struct sset fd_q = { 5, NPL2, 6 }, fd_t = { 6, NPL2, 6 };
+        family_fault_decode(th ? &fd_t : &fd_q);
+    }
+    family_encode_scripts(th ? 6 : 4, th ? 4 : 3, th ? 6 : 5);
     family_long();
+    {
+        /* last: the one family in which a finding is open on the unchanged
+         * tree (at=inside-escape), so that a shard stopping at the violation
+         * cap has done everything else before */
+        const struct sset i1_q = { 6, NPL2, 6 }, i2_q = { 4, 6, 0 };
+        const struct sset i1_t = { 7, NPL2, 6 }, i2_t = { 5, NPL2, 6 };
+        family_interrupt(th ? &i1_t : &i1_q, th ? &i2_t : &i2_q);
+    }
 
     mc_finish(true, th
-              ? "payloads and raw streams of length 0..9 over {41,c0,db,dc,dd}; pairs of payloads <= 4; garbage <= 4 x 1-3 frames of payload <= 2, garbage 5-6 x 1-2 frames of payload <= 1; faults at every driver call (payload <= 5, stream <= 6) x {-EIO,-EPIPE}; ESC x all 256 second octets; all 65536 octet pairs, fills/ramps/cycles up to 1024"
-              : "payloads and raw streams of length 0..7 over {41,c0,db,dc,dd}; pairs of payloads <= 3; garbage <= 3 x (1-2 frames of payload <= 2, 3 frames of payload <= 1); faults at every driver call (payload <= 3, stream <= 4) x {-EIO,-EPIPE}; ESC x all 256 second octets; all 65536 octet pairs, fills/ramps/cycles up to 1024");
+              ? "payloads and raw streams of length 0..9 over {41,c0,db,dc,dd}; pairs of payloads <= 4 x {fresh, reused init-function, reused static-initialiser context}; garbage <= 4 x 1-3 frames of payload <= 2, garbage 5-6 x 1-2 frames of payload <= 1; "
+                "encode faults at every driver call (payload <= 5) x {-EIO,-EPIPE,-EAGAIN,-EINTR}; decode faults at every driver call (sink: 4 codes, source: -EIO,-EPIPE) with decoding continued, streams = class strings <= 6 + frame pairs (payload <= 2) + frame triples (payload <= 1); "
+                "source interruptions {-EAGAIN,-EINTR}: one at every source call (class strings <= 7 + frame pairs + triples), two at every pair of source calls (class strings <= 5 + frame pairs + triples), x 2 set-ups; "
+                "encoder sink scripts: 1 deviation (payload <= 6) and 2 deviations (payload <= 4) over 2n+3 call slots x {short, zero, -EAGAIN, -EINTR, -EIO}, FIFO blocks 1..8 (payload <= 6); "
+                "worst-case macro n <= 1100 and 2^k-2..2^k+2 for k <= 63; ESC x all 256 second octets; all 65536 octet pairs, fills/ramps/cycles up to 1024"
+              : "payloads and raw streams of length 0..7 over {41,c0,db,dc,dd}; pairs of payloads <= 3 x {fresh, reused init-function, reused static-initialiser context}; garbage <= 3 x (1-2 frames of payload <= 2, 3 frames of payload <= 1); "
+                "encode faults at every driver call (payload <= 3) x {-EIO,-EPIPE,-EAGAIN,-EINTR}; decode faults at every driver call (sink: 4 codes, source: -EIO,-EPIPE) with decoding continued, streams = class strings <= 5 + frame pairs (payload <= 2) + frame triples (payload <= 1); "
+                "source interruptions {-EAGAIN,-EINTR}: one at every source call (class strings <= 6 + frame pairs + triples), two at every pair of source calls (class strings <= 4 + frame pairs of payload <= 1), x 2 set-ups; "
+                "encoder sink scripts: 1 deviation (payload <= 4) and 2 deviations (payload <= 3) over 2n+3 call slots x {short, zero, -EAGAIN, -EINTR, -EIO}, FIFO blocks 1..8 (payload <= 5); "
+                "worst-case macro n <= 1100 and 2^k-2..2^k+2 for k <= 63; ESC x all 256 second octets; all 65536 octet pairs, fills/ramps/cycles up to 1024");
     return 0;
 }
 
@@ -1251,6 +1887,9 @@ main(int argc, char **argv)
 /* a search node is the whole context image, not a selection of members */
 struct key {
     unsigned char image[sizeof(RFC1055Context)];
+    /* 1: this image is what rfc1055_context_init made (on a zeroed block, or
+     * out of a used context): it is owed everything an initial context is */
+    unsigned char as_initial;
 };
 
 static void
@@ -1270,17 +1909,64 @@ statename(int s)
     }
 }
 
+/* Operations of the search: "decode this octet string until the source is
+ * exhausted", fault-free or with one driver failure on the way (after which
+ * the same context and source are used on):
+ *   F_NONE
+ *   F_SRC_AGAIN k   source call k answers -EAGAIN   (k = 0..len)
+ *   F_SRC_EIO k     source call k answers -EIO      (k = 0..len)
+ *   F_SNK_EIO k     sink call k answers -EIO        (k = 0..len-1)
+ * Which (stream, failure) pairs exist depends on the stream only. */
+enum fkind { F_NONE, F_SRC_AGAIN, F_SRC_EIO, F_SNK_EIO, F_N };
+struct op {
+    unsigned char len, fkind, pos;
+    uint32_t idx;
+};
+static struct op *OPS;
+static int NOPS;
+
 static void
-op_string(int op, unsigned char *out, size_t *len)
+ops_build(size_t maxlen, size_t maxlen_faults)
 {
-    size_t n = 0;
-    uint64_t idx = (uint64_t)op;
-    while (idx >= P5[n]) {
-        idx -= P5[n];
-        n++;
-    }
-    nth_string(n, idx, out);
-    *len = n;
+    size_t cap = 0;
+    for (size_t n = 0; n <= maxlen; ++n)
+        cap += (size_t)P5[n] * (n <= maxlen_faults ? 3 * n + 3 : 1);
+    OPS = calloc(cap, sizeof *OPS);
+    if (OPS == NULL)
+        mc_broken("out of memory");
+    for (size_t n = 0; n <= maxlen; ++n)
+        for (uint64_t idx = 0; idx < P5[n]; ++idx) {
+            struct op o = { (unsigned char)n, F_NONE, 0, (uint32_t)idx };
+            OPS[NOPS++] = o;
+            if (n > maxlen_faults)
+                continue;
+            for (int fk = F_SRC_AGAIN; fk < F_N; ++fk)
+                for (size_t k = 0; k < (fk == F_SNK_EIO ? n : n + 1); ++k) {
+                    o.fkind = (unsigned char)fk;
+                    o.pos = (unsigned char)k;
+                    OPS[NOPS++] = o;
+                }
+        }
+}
+
+static const char *
+op_text(int op)
+{
+    static char buf[4][96];
+    static int k;
+    char *b = buf[k = (k + 1) & 3];
+    unsigned char st[16];
+    const struct op *o = &OPS[op < NOPS ? op : 0];
+    nth_string(o->len, o->idx, st);
+    static const char *const fk[F_N] = { "", "source-call", "source-call", "sink-call" };
+    static const char *const fc[F_N] = { "", "-EAGAIN", "-EIO", "-EIO" };
+    if (op >= NOPS)
+        snprintf(b, sizeof buf[0], "rfc1055_context_init(%s)", op == NOPS ? "classic" : "sof");
+    else if (o->fkind == F_NONE)
+        snprintf(b, sizeof buf[0], "%s", hex(st, o->len));
+    else
+        snprintf(b, sizeof buf[0], "%s(%s %d answers %s)", hex(st, o->len), fk[o->fkind], o->pos, fc[o->fkind]);
+    return b;
 }
 
 static void
@@ -1294,12 +1980,8 @@ path_text(const struct mc_set *s, int64_t id, char *buf, size_t n)
     }
     size_t l = 0;
     buf[0] = 0;
-    while (k-- > 0 && l + 24 < n) {
-        unsigned char st[16];
-        size_t len;
-        op_string(ops[k], st, &len);
-        l += (size_t)snprintf(buf + l, n - l, "%s%s", hex(st, len), k ? "," : "");
-    }
+    while (k-- > 0 && l + 60 < n)
+        l += (size_t)snprintf(buf + l, n - l, "%s%s", op_text(ops[k]), k ? "," : "");
 }
 
 int
@@ -1311,9 +1993,8 @@ main(int argc, char **argv)
         P5[i] = P5[i - 1] * 5;
     anchors();
     const size_t maxlen = mc_thorough() ? 7 : 5;
-    int nops = 0;
-    for (size_t n = 0; n <= maxlen; ++n)
-        nops += (int)P5[n];
+    const size_t maxlen_faults = mc_thorough() ? 6 : 5;
+    ops_build(maxlen, maxlen_faults);
 
     struct mc_set set;
     mc_set_init(&set);
@@ -1325,53 +2006,165 @@ main(int argc, char **argv)
         rfc1055_context_init(&c, sof ? RFC1055_WITH_SOF : RFC1055_DEFAULT);
         memset(&init_key[sof], 0, sizeof init_key[sof]);
         memcpy(init_key[sof].image, &c, sizeof c);
+        init_key[sof].as_initial = 1;
         mc_set_add(&set, &init_key[sof], sizeof init_key[sof], -1, -1, NULL);
     }
+    /* outcome classes: by what the harness did (which context, which driver
+     * answers), never by what state the implementation went to */
+    static const char *const OUTCOME[2][F_N] = {
+        { "derived-context", "derived-context-source-interrupted", "derived-context-source-error",
+          "derived-context-sink-error" },
+        { "initial-context", "initial-context-source-interrupted", "initial-context-source-error",
+          "initial-context-sink-error" } };
+    /* Two passes over the queue.  Pass 0 explores with every operation and
+     * judges all of them but the source interruptions, which it only executes
+     * for their successors; pass 1 goes over the (then complete) set of
+     * contexts again and judges the interruptions.  So a run that stops at
+     * the violation cap inside the interruption clause has judged everything
+     * else before. */
+    for (int pass = 0; pass < 2; ++pass)
     for (int64_t cur = 0; cur < (int64_t)set.n; ++cur) {
         struct key k;
         memcpy(&k, mc_set_key(&set, cur), sizeof k);
         RFC1055Context kc;
         key_ctx(&k, &kc);
         const bool sof = (kc.flags & RFC1055_WITH_SOF) != 0;
-        /* "initial" = exactly what a fresh rfc1055_context_init produces */
-        const bool initial = memcmp(&k, &init_key[sof], sizeof k) == 0;
-        char path[200];
+        /* "initial" = what rfc1055_context_init produced */
+        const bool initial = k.as_initial != 0;
+        char path[240];
         path_text(&set, cur, path, sizeof path);
-        for (int op = 0; op < nops; ++op) {
+        for (int op = 0; op < NOPS; ++op) {
             unsigned char st[16];
-            size_t len;
-            op_string(op, st, &len);
-            mc_case("context mode=%s state=%s%s reached-by=[%s] stream=%s", modename(sof),
+            const struct op *o = &OPS[op];
+            const size_t len = o->len;
+            if (pass == 1 && o->fkind != F_SRC_AGAIN)
+                continue;
+            const bool silent = pass == 0 && o->fkind == F_SRC_AGAIN;
+            nth_string(len, o->idx, st);
+            if (silent)
+                mc.active = false; /* executed for its successor only, judged in pass 1 */
+            else
+            mc_case("context mode=%s state=%s%s stream=%s%s%s reached-by=[%s]", modename(sof),
                     statename((int)kc.state),
                     (!initial && kc.state == (sof ? RFC1055_SEARCH_FOR_START : RFC1055_NORMAL))
                         ? "(other members differ from the initial context)" : "",
-                    path, hex(st, len));
+                    op_text(op), o->fkind == F_SRC_AGAIN ? " at=" : "",
+                    o->fkind == F_SRC_AGAIN ? AT_NAME[position_class(sof, st, len, o->pos)] : "", path);
+            struct inject inj = NO_INJECT;
+            if (o->fkind == F_SRC_AGAIN || o->fkind == F_SRC_EIO) {
+                inj.src_at = o->pos;
+                inj.code = o->fkind == F_SRC_AGAIN ? -EAGAIN : -EIO;
+            } else if (o->fkind == F_SNK_EIO) {
+                inj.snk_at = o->pos;
+                inj.code = -EIO;
+            }
             ctx_image_in = k.image;
-            run_decoder(kc.flags, (int)kc.state, false, K_OCTET, st, len, NO_INJECT);
+            run_decoder(kc.flags, (int)kc.state, false, K_OCTET, st, len, inj);
             ctx_image_in = NULL;
-            struct verdict v = judge(sof, initial, false, st, len, -1);
+            /* the injected code comes back unchanged (-EAGAIN: or the source is asked again) */
+            bool fired = false;
+            size_t behind = 0;
+            for (int i = 0; i < R.n && !silent; ++i) {
+                const struct dcall *c = &R.c[i];
+                if (!(c->sfired || c->kfired))
+                    continue;
+                fired = true;
+                behind = c->off1;
+                const bool retried = o->fkind == F_SRC_AGAIN
+                    && (c->rc == 1 || c->rc == -EILSEQ || (c->rc == -ENODATA && c->off1 == len));
+                if (c->rc != c->fcode && !retried)
+                    mc_fail(c->sfired ? "C12/source-error-unchanged" : "C12/sink-error-unchanged",
+                            "%s answered %s during call %d, decode returned %s",
+                            c->sfired ? "source" : "sink", errname(c->fcode), i, errname(c->rc));
+            }
+            if (silent) {
+                ;
+            } else if (!fired || o->fkind == F_SRC_AGAIN) {
+                /* an interruption consumed nothing: judged like the same stream without it */
+                if (fired) {
+                    fold_interruptions();
+                    clause_override = "C12/source-interruption-transparent";
+                }
+                judge(sof, initial, false, st, len, -1);
+                clause_override = NULL;
+            } else {
+                /* behind a hard failure: the resynchronisation sentences only */
+                judge(sof, false, true, st, len, -1);
+                if (!R.hang && !R.overflow)
+                    judge_from(sof, false, false, st, len, -1, behind);
+            }
             struct key nk;
             memset(&nk, 0, sizeof nk);
             memcpy(nk.image, R.ctx_after, sizeof nk.image);
+            for (int m = 0; m < 2; ++m)
+                if (memcmp(nk.image, init_key[m].image, sizeof nk.image) == 0)
+                    nk.as_initial = 1;
+            /* An initial context that decoded nothing but complete
+             * well-formed frames up to the end of its source (one received
+             * block) holds no part of a frame: the frames of the next block
+             * are owed like the first ones (concatenated encodings decode in
+             * order, through however many sources they arrive). */
+            if (initial && o->fkind == F_NONE) {
+                static struct frame fr[MAXFR];
+                const int nfr = parse_run(sof, st, len, 0, fr);
+                if (len == 0 || (nfr > 0 && fr[nfr - 1].e == len))
+                    nk.as_initial = 1;
+            }
             if (!R.hang && !R.overflow)
                 mc_set_add(&set, &nk, sizeof nk, cur, op, NULL);
-            const int ns = R.state_after;
-            const char *o = ns == RFC1055_NORMAL ? (v.eilseq ? "to-normal-via-eilseq" : "to-normal")
-                : ns == RFC1055_SEARCH_FOR_END ? "to-search-for-end"
-                : ns == RFC1055_SEARCH_FOR_START ? (v.nonempty ? "to-search-for-start-delivering" : "to-search-for-start")
-                : "to-unknown-state";
-            mc_end(v.deliveries + v.eilseq > 0, o);
+            if (!silent)
+                mc_end(len > 0, OUTCOME[initial ? 1 : 0][o->fkind]);
+        }
+        if (pass == 1)
+            continue;
+        /* the context in the encoder's hands: whatever the decoder left in
+         * it, an encode with it is a complete encoding in the context's mode
+         * (rfc1055_encode takes the context as const: mode is all it may use) */
+        for (size_t n = 0; n <= 2; ++n)
+            for (uint64_t idx = 0; idx < P5[n]; ++idx) {
+                unsigned char pl[4];
+                nth_string(n, idx, pl);
+                mc_case("context mode=%s state=%s reached-by=[%s] used to encode payload=%s",
+                        modename(sof), statename((int)kc.state), path, hex(pl, n));
+                RFC1055Context *c = mc_exact(sizeof *c);
+                memcpy(c, k.image, sizeof *c);
+                memset(&EENV, 0, sizeof EENV);
+                EENV.ctx = c;
+                run_encoder(sof, true, K_OCTET, pl, n, NO_INJECT, false);
+                memset(&EENV, 0, sizeof EENV);
+                free(c);
+                judge_complete_encoding(sof, true, pl, n);
+                mc_end(n > 0, "context-used-by-encoder");
+            }
+        /* history of initialisations: rfc1055_context_init on this used
+         * context, in either mode, makes an initial context again */
+        for (int m = 0; m < 2; ++m) {
+            mc_case("context mode=%s state=%s reached-by=[%s] re-initialised with rfc1055_context_init(%s)",
+                    modename(sof), statename((int)kc.state), path, modename(m));
+            RFC1055Context *c = mc_exact(sizeof *c);
+            memcpy(c, k.image, sizeof *c);
+            rfc1055_context_init(c, m ? RFC1055_WITH_SOF : RFC1055_DEFAULT);
+            mc_trans(1);
+            struct key nk;
+            memset(&nk, 0, sizeof nk);
+            memcpy(nk.image, c, sizeof nk.image);
+            nk.as_initial = 1;
+            free(c);
+            mc_set_add(&set, &nk, sizeof nk, cur, NOPS + m, NULL);
+            mc_end(false, "context-re-initialised");
         }
         if (set.n > 64) {
             mc_cap("context cap 64 hit");
             break;
         }
     }
+    if (set.n <= 2)
+        mc_cap("no context but the two initial ones was ever reached");
     mc.states += (int64_t)set.n;
-    char bound[200];
+    char bound[400];
     snprintf(bound, sizeof bound,
-             "every context image reachable from both initial contexts, every stream of length 0..%zu over {41,c0,db,dc,dd} decoded to exhaustion from each, to fixpoint (%zu contexts)",
-             maxlen, set.n);
+             "every context image reachable from both initial contexts, every stream of length 0..%zu over {41,c0,db,dc,dd} decoded to exhaustion from each, fault-free and (length 0..%zu) with one driver failure at every call position (source -EAGAIN, source -EIO, sink -EIO) followed by continued use, to fixpoint (%zu contexts)",
+             maxlen, maxlen_faults, set.n);
     mc_set_free(&set);
     mc_finish(true, bound);
     return 0;
